@@ -62,6 +62,9 @@ def run(ctx, gen_status):
         for kind in ['single', 'pair', 'scalar_label', 'triple']:
             loader.append({'N': L * r.choice([1, 2]) if L < 40 else L, 'bs': 1 if L >= 40 else r.choice([1, 2]), 'kind': kind, 'seed': r.randint(0, 999)})
     loader = [c for c in loader if c['N'] <= 240]
+    for c in loader:
+        if r.random() < 0.4:
+            c['abandon'] = r.randint(2, 4)
     # the distributed Poisson loader must take len(loader) steps per epoch too (loader lengths where int(1/(1/L)) != L included)
     for L in (93, 99, 105, 7, 12):
         for W in (2, 3):
